@@ -8,6 +8,8 @@ A *scenario* is built fresh for every execution on a fresh VLoop:
     scen.faults()   -> [(label, fire)]  enabled events that are never taken by
                        default (cancel, drop, close, fail): deviations only
     scen.monitor()  -> called after every pass (appends to scen.problems)
+    scen.quiescent()-> optional; called whenever nothing is ready and no event is
+                       enabled (before the clock is advanced or the run ends)
     scen.final()    -> terminal oracle, returns an observation (hashable/jsonable)
     scen.state()    -> optional abstract state for pruning (None = no pruning)
     scen.horizon    -> latest virtual time the clock may be advanced to
@@ -69,10 +71,16 @@ def run_one(factory, case, prefix, max_passes=2000, seen=None, bound=None):
                     options = [RUN] + [l for l, _ in menu] + ([CLOCK] if clock_ok else [])
                 elif menu:
                     options = [l for l, _ in menu] + ([CLOCK] if clock_ok else [])
-                elif clock_ok:
-                    options = [CLOCK]
                 else:
-                    options = [END] if faults else []
+                    # quiescent: nothing runs and the environment owes nothing;
+                    # only time (or a fault) can move the system from here
+                    q = getattr(scen, "quiescent", None)
+                    if q is not None:
+                        q()
+                    if clock_ok:
+                        options = [CLOCK]
+                    else:
+                        options = [END] if faults else []
                 options += [l for l, _ in faults]
                 if not options:
                     break
